@@ -454,6 +454,10 @@ def mp_cases(tier):
         for da in b2:
             for db in b2:
                 yield ("P-FF", (fil(n1, "1", da), fil(n2, "2", db, "text/plain")), 1, None)
+    # P3: a depth-3 text value followed by a depth-2 one under the same name
+    for v1 in gen.strings(TA, 3, 3):
+        for v2 in t2:
+            yield ("P3", (fld("a", v1), fld("a", v2)), 1, None)
     # T: triples at depth 1
     t1 = list(gen.strings(TA, 1))
     b1 = list(gen.bstrings(BA, 1))
@@ -815,6 +819,17 @@ def api_cases(tier):
         yield (("cfield", "t", None, f"text/plain; charset={cs}", "é\r\nÿ"), fld("u", "é"))
 
 
+API_QUICK_EXTRA = ["dict", "client"] + [stream_label(c) for c in STREAM_CONFIGS]
+
+
+def api_extra_cases():
+    t2 = list(gen.strings(TA, 2))
+    for v1 in t2:
+        for v2 in t2:
+            if len(v1) + len(v2) > 2:          # the shorter ones are in api_cases already
+                yield (fld("a", v1), fld("a", v2))
+
+
 # ------------------------------------------------------------------ foreign encoders (RFC 2231 parameters)
 # Bodies written the way other clients write them; the suite pins these forms in test_http / test_formparser.
 
@@ -1115,7 +1130,7 @@ def check_buffered(value: str, kind: str, size: int):
 # ------------------------------------------------------------------ units
 
 N_MP = 96
-N_API = 32
+N_API = 64
 N_UE = 48
 SWEEP_CHUNK = 0x800
 
@@ -1186,8 +1201,13 @@ def run_unit(unit, R, tier):
         _, idx, n = unit
         tmpdir = tempfile.mkdtemp(prefix="c02_")
         try:
-            for j, parts in enumerate(gen.shard(api_cases(tier), n, idx)):
-                fails, ran = check_api(parts, tmpdir)
+            cases = ((p_, API_VARIANTS) for p_ in api_cases(tier))
+            if tier != "thorough":
+                # quick: the depth-2 same-name field pairs (all variants in thorough) through the fragmenting
+                # streams, the test client and the dict form
+                cases = itertools.chain(cases, ((p_, API_QUICK_EXTRA) for p_ in api_extra_cases()))
+            for j, (parts, variants) in enumerate(gen.shard(cases, n, idx)):
+                fails, ran = check_api(parts, tmpdir, variants)
                 R.ev(ran)
                 R.count("api_cases")
                 R.count("api_runs", ran)
@@ -1282,7 +1302,7 @@ def run_unit(unit, R, tier):
 
 def finalize(R, tier):
     need = {"mp:S-field", "mp:S-file", "mp:S-file-ct", "mp:Z", "mp:N", "mp:C", "mp:P-ff", "mp:P-fF", "mp:P-Ff",
-            "mp:P-FF", "mp:T", "mp:uncarriable-for-some-boundary", "mp:empty-value", "mp:linebreak-in-value",
+            "mp:P-FF", "mp:P3", "mp:T", "mp:uncarriable-for-some-boundary", "mp:empty-value", "mp:linebreak-in-value",
             "ue:repeated-key", "ue:empty-value", "ue:empty-key", "ue:forms"}
     need |= {"mp:BIG:%d" % n for n in BIG}
     need |= {"foreign:" + st for st in F_STYLES}
@@ -1298,8 +1318,9 @@ def finalize(R, tier):
     if carriable(b"x\r\n--bnd\r\ny", b"bnd") or carriable(b"--bnd", b"bnd") or not carriable(b"x--bnd\r\n--bn", b"bnd"):
         raise core.Broken("domain filter (carriable) is wrong")
     return {
-        "bound": ("single parts depth 3, pairs depth 2, triples depth 1, BMP sweep; urlencoded strings <=2; API forms "
-                  "on pairs depth 1"
+        "bound": ("single parts depth 3, pairs depth 2 and depth 3 x 2 for same-name fields, triples depth 1, BMP sweep; "
+                  "urlencoded strings <=2; API forms on pairs depth 1, fragmenting streams / client / dict on "
+                  "same-name field pairs depth 2"
                   if tier == "quick" else
                   "single parts depth 4, pairs depth 2, triples depth 1 (+ depth 2 for fields), all-planes sweep; "
                   "urlencoded strings <=3 x <=2, all API forms on every list; API forms on pairs depth 2"),
